@@ -557,7 +557,7 @@ func genC14Subject(r *Rand, i int) *c14Subject {
 		off = int64(3 + r.Intn(5))
 	}
 	t := baseTime
-	for si := 0; si < 3; si++ {
+	for si := 0; si < 4; si++ {
 		n := 2 + r.Intn(3)
 		seg := c14Seg{base: off}
 		var ms []ref.Msg
@@ -590,7 +590,7 @@ func genC14Subject(r *Rand, i int) *c14Subject {
 	keys := append(append([][]byte(nil), s.keys...), []byte("absent"))
 	for _, k := range keys {
 		s.calls = append(s.calls, readCall{kind: "GetByKey", key: k})
-		for _, o := range []int64{-2, s.segs[1].base, s.segs[2].base} {
+		for _, o := range []int64{-2, s.segs[1].base, s.segs[3].base} {
 			s.calls = append(s.calls, readCall{kind: "ConsumeByKey", key: k, off: o, max: 2}, readCall{kind: "ConsumeByKey", key: k, off: o, max: 40})
 		}
 	}
@@ -860,9 +860,10 @@ func runC14(cfg *RunCfg, rep *Reporter, cov *Cov) {
 	}
 	// pass 1 (sequential, nothing else running): allocation measurement for damages of length fields
 	var ms runtime.MemStats
+	allocViol := 0
 	for _, j := range jobs {
 		s, d := subjects[j.s], damages[j.s][j.d]
-		if !d.lengthFlip || j.s >= 3 {
+		if !d.lengthFlip || j.s >= 3 || allocViol >= 3 {
 			continue
 		}
 		dir := filepath.Join(cfg.Scratch, "c14-alloc")
@@ -883,9 +884,10 @@ func runC14(cfg *RunCfg, rep *Reporter, cov *Cov) {
 			cov.Add("evaluations", 1)
 			cov.Add("outcome.alloc-measured", 1)
 			if delta := ms.TotalAlloc - before; delta > c14AllocBound+64*fileSize {
-				defer func() {}()
+				allocViol++
 				rep.Report(Violation{Property: "C14", Sig: "dmgmon|alloc:" + c.kind, What: fmt.Sprintf("%s allocated %d bytes on a %d-byte file with a damaged length field (bound 64 MiB + 64 x file + 1 MiB)", c, delta, fileSize),
 					Replay: map[string]any{"subject": j.s, "damage": d.kind, "from": d.from, "segment": d.seg, "seed": cfg.Seed}})
+				break
 			}
 		}
 		kClose(l)
@@ -898,6 +900,9 @@ func runC14(cfg *RunCfg, rep *Reporter, cov *Cov) {
 		dir := filepath.Join(cfg.Scratch, fmt.Sprintf("c14-%d", k))
 		defer os.RemoveAll(dir)
 		cov.Add("damage."+d.kind, 1)
+		if d.kind == "overwrite-lengths-crafted" && allocViol > 0 {
+			return // the sequential pass already showed the allocation; 16 workers allocating GiBs would only kill the run
+		}
 		c14One(cfg, rep, cov, s, j.s, d, dir)
 		if k%5003 == 0 {
 			cov.Sample("c14-"+d.kind, map[string]any{"subject": j.s, "segment": d.seg, "damage": d.kind, "from": d.from, "to": d.to, "pos_class": c14PosClass(s.segs[d.seg], d), "calls": len(s.calls)})
@@ -908,7 +913,7 @@ func runC14(cfg *RunCfg, rep *Reporter, cov *Cov) {
 func c14One(cfg *RunCfg, rep *Reporter, cov *Cov, s *c14Subject, si int, d c14Damage, dir string) {
 	seg := s.segs[d.seg]
 	pc := c14PosClass(seg, d)
-	role := []string{"oldest", "middle", "head"}[d.seg]
+	role := []string{"oldest", "middle", "middle", "head"}[d.seg]
 	// state predicate of a known format weakness: V1 files carry no magic, they are recognised by their
 	// first 8 bytes equalling the base offset - a log of the base-0 segment whose beginning is zero
 	// filled therefore reads as a V1 file of empty records (offset 0, time 0, CRC of nothing = 0)
@@ -918,7 +923,7 @@ func c14One(cfg *RunCfg, rep *Reporter, cov *Cov, s *c14Subject, si int, d c14Da
 			sig = "v1-misparse(zero-filled log of the base-0 segment)"
 		}
 		rp := map[string]any{"subject": si, "segment": d.seg, "damage": d.kind, "from": d.from, "to": d.to, "pos_class": pc, "seed": cfg.Seed,
-			"segment_bases": []int64{s.segs[0].base, s.segs[1].base, s.segs[2].base}, "damaged_log_hex": fmt.Sprintf("%x", d.log), "messages": msgSummaries(s.msgs), "cfg": s.cfg.String()}
+			"segment_bases": []int64{s.segs[0].base, s.segs[1].base, s.segs[2].base, s.segs[3].base}, "damaged_log_hex": fmt.Sprintf("%x", d.log), "messages": msgSummaries(s.msgs), "cfg": s.cfg.String()}
 		if c != nil {
 			rp["call"] = c.String()
 		}
